@@ -949,6 +949,8 @@ class FDE:
             return ('pymethod', base, attr)
         if isinstance(base, str) and (attr in _STR_METHODS or (not attr.startswith('_') and hasattr(str, attr))):
             return ('strmethod', base, attr)
+        if isinstance(base, bytes) and not attr.startswith('_') and hasattr(bytes, attr):
+            return ('strmethod', base, attr)
         if isinstance(base, (list, set)) and not attr.startswith('_') and hasattr(base, attr):
             return ('listmethod', base, attr)
         if (base is None or isinstance(base, (str, int, float, bytes, list, dict, set))) and not hasattr(base, attr):
@@ -1606,6 +1608,8 @@ class FDE:
                     return any(x[1] in mro_ for x in cands)      # a tuple of classes (repo or built-in ones)
                 if isinstance(o, Obj) and cands and all(isinstance(x, tuple) and len(x) == 2 and x[0] == 'ext' and isinstance(x[1], type) for x in cands):
                     # a node object against a stdlib ABC: decided by the built-in base of its class (dict / list / tuple / str ...)
+                    if o.cls not in self.repo.classes:
+                        return any(x[1].__name__ == o.cls.split('.')[-1] for x in cands)      # a stand-in object of an external class, named by the rule
                     mro_ = self.repo.mro(o.cls) if o.cls in self.repo.classes else []
                     bases = [b for b in (dict, list, tuple, str, bytes, int, float, set) if b.__name__ in mro_]
                     return any(issubclass(b, x[1]) for b in bases for x in cands)
@@ -1651,7 +1655,7 @@ class FDE:
                     return Opaque('%s(%s)' % (n, args[0].name))      # the built-in content of a node object, as a plain list / tuple
                 if n in ('list', 'tuple') and isinstance(args[0], (list, tuple)):
                     return list(args[0]) if n == 'list' else tuple(args[0])
-                if n == 'len' and isinstance(args[0], (dict, list, tuple, str)):
+                if n == 'len' and isinstance(args[0], (dict, list, tuple, str, bytes, set, frozenset)):
                     return len(args[0])
                 if n == 'len' and isinstance(args[0], Obj) and isinstance(args[0].f.get('_children'), dict) and args[0].cls in self.repo.classes and ({'dict', 'list'} & set(self.repo.mro(args[0].cls))):
                     return len(args[0].f['_children'])      # a container node with a concrete child map (two stores in step)
@@ -1762,6 +1766,10 @@ class FDE:
                 t = target[1]
                 if t.name not in self.stubs and t.qualname not in self.stubs:
                     return self._invoke(t, args, kwargs)
+                if t.is_static:
+                    # Class.static_method(args): there is no receiver among the arguments
+                    self.effects.append(('call', t.name, None, tuple(args), tuple(sorted(kwargs.items()))))
+                    return self.stub(t.name, None, list(args), kwargs) if self.stub is not None else None
                 self.effects.append(('call', t.name, args[0] if args else None, tuple(args[1:]), tuple(sorted(kwargs.items()))))
                 if self.stub is not None:
                     return self.stub(t.name, args[0] if args else None, args[1:], kwargs)
@@ -1799,6 +1807,13 @@ class FDE:
                     raise Unsupported('regex method on abstract arguments')
                 r_ = self._standin(getattr(target[1], target[2]), args, kwargs)
                 return list(r_) if target[2] in ('finditer',) else r_
+            if isinstance(target, tuple) and target and target[0] == 'strmethod' and isinstance(target[1], bytes):
+                if all(isinstance(a, (bytes, int)) or (isinstance(a, (list, tuple)) and all(isinstance(x, bytes) for x in a)) for a in args) and not kwargs:
+                    try:
+                        return getattr(target[1], target[2])(*args)
+                    except (ValueError, TypeError) as ex:
+                        raise Raised(type(ex).__name__)
+                raise Unsupported('bytes.%s on abstract arguments' % target[2])
             if isinstance(target, tuple) and target and target[0] == 'strmethod':
                 if all(isinstance(a, (str, int, tuple)) or (isinstance(a, list) and all(isinstance(x, str) for x in a)) for a in args):
                     return getattr(target[1], target[2])(*args, **kwargs)
